@@ -105,12 +105,18 @@ def _stripped_mode(node):
 
 
 def _function(fn, qual):
-    info = {"name": qual, "tries": [], "calls": _calls(fn.body), "raises": [], "bodies": [], "responses": []}
+    info = {"name": qual, "tries": [], "finallies": [], "calls": _calls(fn.body), "raises": [], "bodies": [], "responses": []}
     in_handler = set()
     for n in sorted((x for x in ast.walk(fn) if hasattr(x, "lineno")), key=lambda x: (x.lineno, x.col_offset)):
         if isinstance(n, ast.Try):
+            if n.finalbody and not n.handlers and not n.orelse:
+                # try/finally without except clauses: nothing is caught; the finally block may only make calls
+                if not all(isinstance(st, ast.Expr) and isinstance(st.value, ast.Call) for st in n.finalbody):
+                    raise TranslationError(f"line {n.lineno}: finally block with statements other than calls")
+                info["finallies"].append((_calls(n.body, assignments=True), _calls(n.finalbody)))
+                continue
             if n.finalbody or n.orelse:
-                raise TranslationError(f"line {n.lineno}: try/else/finally not supported")
+                raise TranslationError(f"line {n.lineno}: try/else and try/except/finally not supported")
             hs = []
             for h in n.handlers:
                 if h.type is None:
@@ -289,6 +295,10 @@ def render(res):
                                                               for ks, a in hs) + ")" for calls, hs in f["tries"])
             rows.append(f"({cs(q)}, {ts})")
     L.append("  " + cl(rows).replace("; (\"", ";\n   (\"") + ".")
+    L += ["", "(* function -> its try/finally statements without except clauses: (calls inside the try body, calls of the finally block) *)",
+          "Definition finally_table : list (string * list (list string * list string)) :=",
+          "  " + cl(f"({cs(q)}, " + cl("(" + cl(cs(c) for c in b) + ", " + cl(cs(c) for c in fb) + ")" for b, fb in f["finallies"]) + ")"
+                    for q, f in res["functions"].items() if f["finallies"]).replace("; (\"", ";\n   (\"") + "."]
     L += ["", "(* function -> names of all calls it makes, in source order *)",
           "Definition call_table : list (string * list string) :=",
           "  " + cl(f"({cs(q)}, {cl(cs(c) for c in f['calls'])})" for q, f in res["functions"].items()).replace("; (\"", ";\n   (\"") + ".",
